@@ -1,4 +1,28 @@
 //! C06 — Server transactions deliver the final response reliably
+//!
+//! What is generated (one server transaction of the application = the "foreground", Call-ID `c06-call`):
+//!  * INVITE / non-INVITE x reliable / unreliable x final status x 0..2 provisionals x answer delay,
+//!  * arrival instants of request retransmissions and of the ACK (+-1 ms around every timer edge, or random),
+//!  * transient send faults on re-sends of a non-INVITE final response,
+//!  * the shape of the top Via (plain, `rport`, `maddr`, NATed sent-by + `rport`): it decides where the response
+//!    goes, which is not necessarily where the request came from,
+//!  * WHERE each request retransmission and the ACK come from: the socket address of the first request, another
+//!    port of that host, another host, or another transport object (NAT rebinding, a client that sends from an
+//!    ephemeral port, a new connection). RFC 3261 17.2.3 matches by branch / sent-by / method only,
+//!  * a To-tag added by the application to the final response (echoed by the ACK),
+//!  * background load on the same endpoint: a burst of 1..~600 (thorough grid: 2048) OTHER requests (own branch and
+//!    Call-ID) arriving while the foreground transaction is alive. They are requests no layer takes (the endpoint
+//!    answers 481 itself, for an INVITE inside the receive path for up to 64*T1), INVITEs a layer rejects inline,
+//!    requests a layer works on inline for 20 s, or a mixture; their 3xx-6xx may be ACKed 200 ms later or never.
+//!
+//! Oracle: `ref_tsx` timer arithmetic; the expected transmissions / call results / layer sightings of the
+//! foreground transaction are a function of its own history only — neither the source address of a matching
+//! message nor other transactions of the endpoint change them. The wire log is split by Call-ID; only "every
+//! background message on the wire is a response" is asserted about the load.
+//!
+//! Not asserted: where the response is sent (C09), only that every re-send goes to the same place as the first
+//! transmission; anything about the background transactions themselves; ties on timer instants; the window
+//! between 64*T1 and the report of the timeout; timer I.
 
 use crate::engine::*;
 use crate::refmodel::ref_tsx::{self, T2, TIMEOUT};
@@ -12,7 +36,7 @@ use std::net::SocketAddr;
 use std::sync::Arc;
 use tokio::sync::mpsc;
 
-#[derive(Serialize, Deserialize, Clone, Debug, Hash)]
+#[derive(Serialize, Deserialize, Clone, Debug, Hash, Default)]
 pub struct Case {
     pub invite: bool,
     pub reliable: bool,
@@ -30,13 +54,89 @@ pub struct Case {
     /// transient transport faults: the i-th *re-send* of the final response (0-based, in the order the
     /// transaction attempts them) fails with an io::Error. Applied to non-INVITE transactions on unreliable
     /// transports only (an INVITE transaction reports a failed re-send to the caller of `respond_failure`,
-    /// which the statement does not speak about), and only when no request copy is queued before the answer.
+    /// which the statement does not speak about), only when no request copy is queued before the answer, and only
+    /// without background load.
     #[serde(default)]
     pub faults: Vec<u8>,
+    /// shape of the top Via of the request, its copies and the ACK: 0 plain, 1 `;rport`, 2 `;maddr=192.0.2.77`,
+    /// 3 sent-by is a private address (10.9.9.9) + `;rport` (client behind a NAT)
+    #[serde(default)]
+    pub via: u8,
+    /// where the i-th request retransmission comes from (missing = 0): 0 the socket address of the first request,
+    /// 1 another port of that host, 2 another host, 3 another transport object of the endpoint (and another port)
+    #[serde(default)]
+    pub retrans_src: Vec<u8>,
+    /// where the ACK comes from (same encoding)
+    #[serde(default)]
+    pub ack_src: u8,
+    /// the application adds a To-tag to the final response; the ACK echoes it
+    #[serde(default)]
+    pub to_tag: bool,
+    /// other requests arriving at the same endpoint while the foreground transaction is alive
+    #[serde(default)]
+    pub load: Option<Load>,
+}
+
+/// A burst of `n` background requests (each with its own branch and Call-ID) injected at `at` ms.
+#[derive(Serialize, Deserialize, Clone, Debug, Hash, Default, PartialEq, Eq)]
+pub struct Load {
+    pub at: u64,
+    pub n: u16,
+    /// 0 INVITEs no layer takes (endpoint answers 481 and awaits the ACK inside the receive path),
+    /// 1 OPTIONS no layer takes (481, returns at once), 2 INVITEs a layer rejects with 486 inline (awaits
+    /// `respond_failure` in `Layer::receive`), 3 OPTIONS a layer works on inline for 20 s before answering 200,
+    /// 4 mixture of the four by index
+    pub kind: u8,
+    /// the peer ACKs every background 3xx-6xx 200 ms after the burst (else never)
+    pub acked: bool,
+}
+
+impl Load {
+    fn kind_of(&self, i: usize) -> u8 {
+        if self.kind >= 4 {
+            (i % 4) as u8
+        } else {
+            self.kind
+        }
+    }
+    /// how long (ms) the i-th background request keeps its receive task busy (by the RFC timers / the layer's
+    /// own delay): used for class labels and non-triviality only, never for an expectation
+    fn busy_ms(&self, i: usize) -> u64 {
+        match self.kind_of(i) {
+            0 | 2 => {
+                if self.acked {
+                    LOAD_ACK_DELAY
+                } else {
+                    TIMEOUT
+                }
+            }
+            3 => LOAD_SLOW_MS,
+            _ => 0,
+        }
+    }
+    /// number of background requests still being worked on inside the receive path at instant `t`
+    fn pending_at(&self, t: u64) -> usize {
+        if t < self.at {
+            return 0;
+        }
+        (0..self.n as usize).filter(|i| t < self.at + self.busy_ms(*i)).count()
+    }
+}
+
+const LOAD_ACK_DELAY: u64 = 200;
+const LOAD_SLOW_MS: u64 = 20_000;
+
+fn src_of(case: &Case, i: usize) -> u8 {
+    case.retrans_src.get(i).copied().unwrap_or(0)
 }
 
 fn faults_apply(case: &Case) -> bool {
-    !case.invite && !case.reliable && !case.faults.is_empty() && case.retrans.iter().all(|t| *t > case.respond_at)
+    !case.invite
+        && !case.reliable
+        && !case.faults.is_empty()
+        && case.retrans.iter().all(|t| *t > case.respond_at)
+        // the fault plan counts the send calls of the whole world: only without background traffic
+        && case.load.is_none()
 }
 
 /// Layer that records and hands every request to the test task
@@ -55,6 +155,45 @@ impl Layer for ChannelLayer {
         let _ = self.tx.send(request.take());
     }
 }
+
+/// The application of C06: takes the foreground call and hands it to the test task; background requests are
+/// left alone (`bg-stray-*`), rejected inline (`bg-inline-*`) or worked on inline (`bg-slow-*`).
+pub struct AppLayer {
+    pub rec: Recorder,
+    pub tx: mpsc::UnboundedSender<IncomingRequest>,
+}
+
+#[async_trait::async_trait]
+impl Layer for AppLayer {
+    fn name(&self) -> &'static str {
+        "c06-app"
+    }
+    async fn receive(&self, endpoint: &Endpoint, request: MayTake<'_, IncomingRequest>) {
+        let call_id = request.base_headers.call_id.0.to_string();
+        if call_id == CALL_ID {
+            self.rec.note(0, &request);
+            let _ = self.tx.send(request.take());
+        } else if call_id.starts_with("bg-inline-") {
+            let mut req = request.take();
+            if req.line.method == sip_types::Method::INVITE {
+                let tsx = endpoint.create_server_inv_tsx(&mut req);
+                let response = endpoint.create_response(&req, Code::from(486), None);
+                let _ = tsx.respond_failure(response).await;
+            }
+        } else if call_id.starts_with("bg-slow-") {
+            let mut req = request.take();
+            if req.line.method != sip_types::Method::ACK {
+                let tsx = endpoint.create_server_tsx(&mut req);
+                tokio::time::sleep(std::time::Duration::from_millis(LOAD_SLOW_MS)).await;
+                let response = endpoint.create_response(&req, Code::from(200), None);
+                let _ = tsx.respond(response).await;
+            }
+        }
+        // bg-stray-*: nobody wants it
+    }
+}
+
+const CALL_ID: &str = "c06-call";
 
 const FINALS: &[u16] = &[200, 302, 404, 486, 500, 603];
 
@@ -89,7 +228,50 @@ fn time_grid(respond_at: u64) -> Vec<u64> {
     g
 }
 
-pub fn strategy() -> BoxedStrategy<Case> {
+fn src_sel() -> impl Strategy<Value = u8> {
+    prop_oneof![3 => Just(0u8), 1 => Just(1u8), 1 => Just(2u8), 1 => Just(3u8)]
+}
+
+/// instants a burst of background requests is placed at: the start, the answer instant, and just before / on
+/// (the burst is injected first) / well before every foreground arrival
+fn load_instants(case: &Case) -> Vec<u64> {
+    let mut v = vec![0, case.respond_at, case.respond_at + 1];
+    for t in case.retrans.iter().copied().chain(case.ack_at) {
+        v.push(t);
+        v.push(t.saturating_sub(1));
+        v.push(t.saturating_sub(50));
+        v.push(t.saturating_sub(700));
+    }
+    v.sort();
+    v.dedup();
+    v
+}
+
+type LoadSel = (u16, u16, u64, bool, u8, bool);
+
+fn load_sel(n: BoxedStrategy<u16>) -> impl Strategy<Value = LoadSel> {
+    (
+        n,
+        any::<u16>(),
+        0u64..3000,
+        prop_oneof![4 => Just(false), 1 => Just(true)],
+        prop_oneof![3 => Just(0u8), 1 => Just(1u8), 2 => Just(2u8), 2 => Just(3u8), 2 => Just(4u8)],
+        prop_oneof![3 => Just(false), 1 => Just(true)],
+    )
+}
+
+fn place_load(case: &Case, sel: LoadSel) -> Load {
+    let (n, at_sel, at_rnd, use_rnd, kind, acked) = sel;
+    let inst = load_instants(case);
+    Load {
+        at: if use_rnd { at_rnd } else { inst[pick_idx(at_sel, inst.len())] },
+        n,
+        kind,
+        acked,
+    }
+}
+
+fn base_strategy(load: BoxedStrategy<Option<LoadSel>>, force_event: bool) -> BoxedStrategy<Case> {
     (
         any::<bool>(),
         prop_oneof![3 => Just(false), 1 => Just(true)],
@@ -101,9 +283,17 @@ pub fn strategy() -> BoxedStrategy<Case> {
         any::<bool>(),
         any::<u8>(),
         prop_oneof![3 => Just(vec![]), 2 => prop::collection::vec(0u8..5, 1..3)],
+        (
+            prop_oneof![2 => Just(0u8), 2 => Just(1u8), 1 => Just(2u8), 1 => Just(3u8)],
+            prop::collection::vec(src_sel(), 6),
+            src_sel(),
+            any::<bool>(),
+            load,
+        ),
     )
         .prop_map(
-            |(invite, reliable, csel, provisionals, respond_at, retr, ack, ack_same_branch, rng, mut faults)| {
+            move |(invite, mut reliable, csel, provisionals, respond_at, retr, ack, ack_same_branch, rng, mut faults, dims)| {
+                let (via, mut retrans_src, ack_src, to_tag, load) = dims;
                 faults.sort();
                 faults.dedup();
                 let grid = time_grid(respond_at);
@@ -136,7 +326,20 @@ pub fn strategy() -> BoxedStrategy<Case> {
                     // a reliable transport does not retransmit after the final response
                     retrans.retain(|t| *t < respond_at);
                 }
-                Case {
+                if force_event && retrans.is_empty() && ack_at.is_none() {
+                    // a history without any later arrival cannot be disturbed by anything: give it one
+                    if invite {
+                        ack_at = Some(nudge(respond_at, respond_at + 100));
+                    } else {
+                        reliable = false;
+                        retrans.push(nudge(respond_at, respond_at + 250));
+                    }
+                }
+                retrans_src.truncate(retrans.len());
+                while retrans_src.last() == Some(&0) {
+                    retrans_src.pop();
+                }
+                let mut case = Case {
                     invite,
                     reliable,
                     code,
@@ -147,10 +350,44 @@ pub fn strategy() -> BoxedStrategy<Case> {
                     ack_same_branch,
                     rng,
                     faults,
+                    via,
+                    retrans_src,
+                    ack_src: if ack_at.is_some() { ack_src } else { 0 },
+                    to_tag,
+                    load: None,
+                };
+                if let Some(sel) = load {
+                    case.load = Some(place_load(&case, sel));
                 }
+                case
             },
         )
         .boxed()
+}
+
+/// the "random" sub-check: mostly no background load, sometimes a small burst
+pub fn strategy() -> BoxedStrategy<Case> {
+    base_strategy(
+        prop_oneof![
+            24 => Just(None),
+            1 => load_sel((1u16..=12).boxed()).prop_map(Some),
+        ]
+        .boxed(),
+        false,
+    )
+}
+
+/// the "load" sub-check: (nearly) every case has a burst, sizes spread over three decades
+/// (an Option, so that a failing case shrinks to one without burst when the burst has nothing to do with it)
+pub fn load_strategy() -> BoxedStrategy<Case> {
+    base_strategy(
+        prop::option::weighted(
+            0.98,
+            load_sel(prop_oneof![1 => 1u16..10, 1 => 10u16..100, 2 => 100u16..=600].boxed()),
+        )
+        .boxed(),
+        true,
+    )
 }
 
 pub fn grid_cases(tier: Tier) -> Vec<Case> {
@@ -212,6 +449,7 @@ pub fn grid_cases(tier: Tier) -> Vec<Case> {
                                 ack_same_branch: false,
                                 rng: 0,
                                 faults: vec![],
+                                ..Default::default()
                             });
                         }
                     }
@@ -236,8 +474,90 @@ pub fn grid_cases(tier: Tier) -> Vec<Case> {
                             ack_same_branch: false,
                             rng: 0,
                             faults: faults.clone(),
+                            ..Default::default()
                         });
                     }
+                }
+            }
+        }
+    }
+    // where the later messages of the transaction come from x where the response went (Via shape)
+    for reliable in [false, true] {
+        for &code in &[200u16, 486] {
+            for via in 0u8..4 {
+                for src in 0u8..4 {
+                    for respond_at in [0u64, 100] {
+                        let to_tag = (via + src) % 2 == 1;
+                        // INVITE: ACK soon after the answer / between two timer-G instants, alone or after a request copy
+                        for ack_off in [100u64, 2 * T1 + 1] {
+                            for with_copy in [false, true] {
+                                let copy = !reliable && with_copy;
+                                if with_copy && reliable {
+                                    continue;
+                                }
+                                out.push(Case {
+                                    invite: true,
+                                    reliable,
+                                    code,
+                                    provisionals: 1,
+                                    respond_at,
+                                    retrans: if copy { vec![nudge(respond_at, respond_at + 50)] } else { vec![] },
+                                    retrans_src: if copy && src != 0 { vec![src] } else { vec![] },
+                                    ack_at: Some(nudge(respond_at, respond_at + ack_off)),
+                                    ack_src: src,
+                                    via,
+                                    to_tag,
+                                    ..Default::default()
+                                });
+                            }
+                        }
+                        // non-INVITE: copies of the request from that address, early and late in the 64*T1 window
+                        if !reliable {
+                            out.push(Case {
+                                invite: false,
+                                reliable,
+                                code,
+                                respond_at,
+                                retrans: vec![
+                                    nudge(respond_at, respond_at + 250),
+                                    nudge(respond_at, respond_at + 7000),
+                                    nudge(respond_at, respond_at + TIMEOUT - 2),
+                                ],
+                                retrans_src: vec![src, 0, src],
+                                via,
+                                to_tag,
+                                ..Default::default()
+                            });
+                        }
+                    }
+                }
+            }
+        }
+    }
+    // bursts of other requests while the foreground transaction waits for its ACK / absorbs request copies
+    let sizes: &[u16] = if tier == Tier::Thorough { &[1, 10, 100, 250, 500, 1000, 2048] } else { &[1, 10, 100, 250, 500] };
+    for &n in sizes {
+        for kind in 0u8..5 {
+            for acked in [false, true] {
+                for shape in 0..3 {
+                    let load = Some(Load { at: 10, n, kind, acked });
+                    out.push(match shape {
+                        0 | 1 => Case {
+                            invite: true,
+                            reliable: shape == 1,
+                            code: 486,
+                            ack_at: Some(100),
+                            load,
+                            ..Default::default()
+                        },
+                        _ => Case {
+                            invite: false,
+                            code: 200,
+                            retrans: vec![501, 9000],
+                            load,
+                            ..Default::default()
+                        },
+                    });
                 }
             }
         }
@@ -256,24 +576,50 @@ pub struct AppResult {
 }
 
 pub struct Observed {
+    /// messages of the foreground call on the wire
     pub wire: Vec<(Sent, Option<WireMsg>)>,
+    /// messages of background calls on the wire: (total, of which not a response)
+    pub bg_wire: (usize, usize),
     pub seen: Vec<Seen>,
     pub app: Vec<AppResult>,
     pub end_count: usize,
     pub failed_sends: usize,
+    /// where the ACK was injected from
+    pub ack_from: Option<SocketAddr>,
 }
 
 const BRANCH: &str = "z9hG4bKc06branch";
+const PEER: &str = "192.0.2.9:5060";
+const TO_TAG: &str = "c06uastag";
 
-fn request_bytes(invite: bool) -> Vec<u8> {
+fn via_value(via: u8, branch: &str) -> String {
+    match via {
+        1 => format!("SIP/2.0/UDP 192.0.2.9:5060;rport;branch={branch}"),
+        2 => format!("SIP/2.0/UDP 192.0.2.9:5060;maddr=192.0.2.77;branch={branch}"),
+        3 => format!("SIP/2.0/UDP 10.9.9.9:5060;branch={branch};rport"),
+        _ => format!("SIP/2.0/UDP 192.0.2.9:5060;branch={branch}"),
+    }
+}
+
+/// source address (and whether it arrives over the second transport object) of a later message
+fn source(sel: u8) -> (SocketAddr, bool) {
+    match sel {
+        1 => ("192.0.2.9:49170".parse().unwrap(), false),
+        2 => ("198.51.100.23:5060".parse().unwrap(), false),
+        3 => ("192.0.2.9:40002".parse().unwrap(), true),
+        _ => (PEER.parse().unwrap(), false),
+    }
+}
+
+fn request_bytes(invite: bool, via: u8) -> Vec<u8> {
     let m = if invite { "INVITE" } else { "OPTIONS" };
     request_text(
         m,
         "sip:uas@10.0.0.1",
-        &[format!("SIP/2.0/UDP 192.0.2.9:5060;branch={BRANCH}")],
+        &[via_value(via, BRANCH)],
         "<sip:peer@192.0.2.9>;tag=peerftag",
         "<sip:uas@10.0.0.1>",
-        "c06-call",
+        CALL_ID,
         11,
         m,
         &["Contact: <sip:peer@192.0.2.9>".to_string()],
@@ -281,7 +627,7 @@ fn request_bytes(invite: bool) -> Vec<u8> {
     )
 }
 
-fn ack_bytes(same_branch: bool, to_tag: Option<&str>) -> Vec<u8> {
+fn ack_bytes(same_branch: bool, via: u8, to_tag: Option<&str>) -> Vec<u8> {
     let branch = if same_branch { BRANCH.to_string() } else { format!("{BRANCH}ack") };
     let to = match to_tag {
         Some(t) => format!("<sip:uas@10.0.0.1>;tag={t}"),
@@ -290,10 +636,10 @@ fn ack_bytes(same_branch: bool, to_tag: Option<&str>) -> Vec<u8> {
     request_text(
         "ACK",
         "sip:uas@10.0.0.1",
-        &[format!("SIP/2.0/UDP 192.0.2.9:5060;branch={branch}")],
+        &[via_value(via, &branch)],
         "<sip:peer@192.0.2.9>;tag=peerftag",
         &to,
-        "c06-call",
+        CALL_ID,
         11,
         "ACK",
         &[],
@@ -301,24 +647,81 @@ fn ack_bytes(same_branch: bool, to_tag: Option<&str>) -> Vec<u8> {
     )
 }
 
+/// the i-th background request of a burst (or the ACK for its final response)
+fn background_bytes(load: &Load, i: usize, ack: bool) -> Vec<u8> {
+    let kind = load.kind_of(i);
+    let method = if ack {
+        "ACK"
+    } else if kind == 0 || kind == 2 {
+        "INVITE"
+    } else {
+        "OPTIONS"
+    };
+    let call = match kind {
+        2 => format!("bg-inline-{i}"),
+        3 => format!("bg-slow-{i}"),
+        _ => format!("bg-stray-{i}"),
+    };
+    request_text(
+        method,
+        "sip:someone@10.0.0.1",
+        &[format!("SIP/2.0/UDP 192.0.2.200:5060;branch=z9hG4bKbg{i}")],
+        &format!("<sip:scanner@192.0.2.200>;tag=bg{i}"),
+        "<sip:someone@10.0.0.1>",
+        &call,
+        1,
+        method,
+        &[],
+        b"",
+    )
+}
+
+fn contains(hay: &[u8], needle: &[u8]) -> bool {
+    hay.windows(needle.len()).any(|w| w == needle)
+}
+
+fn tag_response(response: &mut sip_core::transport::OutgoingResponse) {
+    let _ = response
+        .msg
+        .headers
+        .edit(sip_types::Name::TO, |to: &mut sip_types::header::typed::FromTo| {
+            to.tag = Some(TO_TAG.into());
+        });
+}
+
+/// end of the observation (virtual ms)
+fn horizon(case: &Case) -> u64 {
+    case.retrans
+        .iter()
+        .copied()
+        .chain(case.ack_at)
+        .max()
+        .unwrap_or(0)
+        .max(case.respond_at + TIMEOUT + T2)
+        + 2000
+}
+
 pub fn run(case: &Case) -> Observed {
     let case = case.clone();
     run_world(case.rng as u64, |clock| async move {
         let log = WireLog::new(clock);
         let (tp, _) = mock_datagram(&log, "UDP", false, case.reliable, "10.0.0.1:5060");
+        // a second transport object of the same kind (another socket / another connection of the endpoint)
+        let (tp2, _) = mock_datagram(&log, "UDP", false, case.reliable, "10.0.0.1:5070");
         let rec = Recorder::new(clock);
         let (tx, mut rx) = mpsc::unbounded_channel();
         let mut b = offline_builder();
-        b.add_layer(ChannelLayer { rec: rec.clone(), tx });
+        b.add_layer(AppLayer { rec: rec.clone(), tx });
         let endpoint = b.build();
-        let peer: SocketAddr = "192.0.2.9:5060".parse().unwrap();
+        let peer: SocketAddr = PEER.parse().unwrap();
+        let bg_peer: SocketAddr = "192.0.2.200:5060".parse().unwrap();
         let app: Arc<Mutex<Vec<AppResult>>> = Default::default();
 
         if faults_apply(&case) {
             // send calls so far: the provisionals and the final response itself
             log.fail_calls(case.faults.iter().map(|i| case.provisionals as usize + 1 + *i as usize));
         }
-        let req_bytes = request_bytes(case.invite);
+        let req_bytes = request_bytes(case.invite, case.via);
         inject(&endpoint, &tp, peer, &req_bytes);
         settle().await;
 
@@ -348,7 +751,10 @@ pub fn run(case: &Case) -> Observed {
                         log_res("provisional", res.map_err(|e| e.to_string()));
                     }
                     clock.until(case2.respond_at).await;
-                    let response = endpoint2.create_response(&req, Code::from(case2.code), None);
+                    let mut response = endpoint2.create_response(&req, Code::from(case2.code), None);
+                    if case2.to_tag {
+                        tag_response(&mut response);
+                    }
                     if (200..300).contains(&case2.code) {
                         let res = tsx.respond_success(response).await;
                         match res {
@@ -376,7 +782,10 @@ pub fn run(case: &Case) -> Observed {
                         log_res("provisional", res.map_err(|e| e.to_string()));
                     }
                     clock.until(case2.respond_at).await;
-                    let response = endpoint2.create_response(&req, Code::from(case2.code), None);
+                    let mut response = endpoint2.create_response(&req, Code::from(case2.code), None);
+                    if case2.to_tag {
+                        tag_response(&mut response);
+                    }
                     let res = tsx.respond(response).await;
                     log_res("final", res.map_err(|e| e.to_string()));
                 }
@@ -385,22 +794,48 @@ pub fn run(case: &Case) -> Observed {
         }
         settle().await;
 
-        let mut events: Vec<(u64, u8)> = case.retrans.iter().map(|t| (*t, 0u8)).collect();
+        // (time, order within the instant, kind, index): a burst goes first within its instant
+        let mut events: Vec<(u64, u8, u8, usize)> =
+            case.retrans.iter().enumerate().map(|(i, t)| (*t, 2u8, 0u8, i)).collect();
         if let Some(a) = case.ack_at {
-            events.push((a, 1));
+            events.push((a, 2, 1, 0));
+        }
+        if let Some(l) = &case.load {
+            events.push((l.at, 0, 2, 0));
+            if l.acked {
+                events.push((l.at + LOAD_ACK_DELAY, 1, 3, 0));
+            }
         }
         events.sort();
-        for (t, kind) in events {
+        let mut ack_from = None;
+        for (t, _, kind, idx) in events {
             clock.until(t).await;
-            if kind == 0 {
-                inject(&endpoint, &tp, peer, &req_bytes);
-            } else {
-                // To-tag as the peer saw it in the final response (none is added by create_response)
-                let ack = ack_bytes(
-                    !(200..300).contains(&case.code) || case.ack_same_branch,
-                    None,
-                );
-                inject(&endpoint, &tp, peer, &ack);
+            match kind {
+                0 => {
+                    let (src, other_tp) = source(src_of(&case, idx));
+                    inject(&endpoint, if other_tp { &tp2 } else { &tp }, src, &req_bytes);
+                }
+                1 => {
+                    // To-tag as the peer saw it in the final response (create_response adds none by itself)
+                    let ack = ack_bytes(
+                        !(200..300).contains(&case.code) || case.ack_same_branch,
+                        case.via,
+                        if case.to_tag { Some(TO_TAG) } else { None },
+                    );
+                    let (src, other_tp) = source(case.ack_src);
+                    ack_from = Some(src);
+                    inject(&endpoint, if other_tp { &tp2 } else { &tp }, src, &ack);
+                }
+                _ => {
+                    let l = case.load.as_ref().unwrap();
+                    for i in 0..l.n as usize {
+                        let k = l.kind_of(i);
+                        if kind == 3 && !(k == 0 || k == 2) {
+                            continue;
+                        }
+                        inject(&endpoint, &tp, bg_peer, &background_bytes(l, i, kind == 3));
+                    }
+                }
             }
             settle().await;
             // later arrivals that open a new transaction are taken and held by the test (never answered)
@@ -412,27 +847,33 @@ pub fn run(case: &Case) -> Observed {
                 }
             }
         }
-        let horizon = case
-            .retrans
-            .iter()
-            .copied()
-            .chain(case.ack_at)
-            .max()
-            .unwrap_or(0)
-            .max(case.respond_at + TIMEOUT + T2)
-            + 2000;
-        clock.until(horizon).await;
+        clock.until(horizon(&case)).await;
         settle().await;
         drop(held);
         settle().await;
         let end_count = endpoint.verif_counts().0;
         let app_out = app.lock().clone();
+        let mut wire = vec![];
+        let mut bg_wire = (0usize, 0usize);
+        for s in log.snapshot() {
+            if contains(&s.bytes, CALL_ID.as_bytes()) {
+                let m = WireMsg::parse(&s.bytes);
+                wire.push((s, m));
+            } else {
+                bg_wire.0 += 1;
+                if !s.bytes.starts_with(b"SIP/2.0 ") || !contains(&s.bytes, b"bg-") {
+                    bg_wire.1 += 1;
+                }
+            }
+        }
         Observed {
-            wire: log.parsed(),
+            wire,
+            bg_wire,
             seen: rec.snapshot(),
             app: app_out,
             end_count,
             failed_sends: log.failed_sends().len(),
+            ack_from,
         }
     })
 }
@@ -446,6 +887,37 @@ pub fn check(case: &Case, out: &mut CaseOut) {
     out.class(kind);
     out.class(if case.reliable { "reliable" } else { "unreliable" });
     out.class(if success { "2xx" } else { "3xx-6xx" });
+
+    // circumstances of the history that must not matter; they qualify the signature of what failed
+    let first_dest = obs
+        .wire
+        .iter()
+        .find(|(_, m)| m.as_ref().and_then(|m| m.status()) == Some(case.code))
+        .map(|(s, _)| s.dest);
+    let ack_elsewhere = case.ack_at.is_some()
+        && (case.ack_src == 3
+            || match (obs.ack_from, first_dest) {
+                (Some(a), Some(d)) => a != d,
+                _ => case.ack_src != 0 || case.via == 2,
+            });
+    let copy_elsewhere = (0..case.retrans.len()).any(|i| src_of(case, i) != 0);
+    // suffix for a failure whose first discrepancy is at `first_bad` ms: a circumstance is named only when it can
+    // have to do with it (the ACK / the request copy concerned came from elsewhere; the burst was there before)
+    let qual = |ack: bool, copy: bool, first_bad: u64| -> String {
+        format!(
+            "{}{}{}",
+            if ack && ack_elsewhere { "+ack-other-addr" } else { "" },
+            if copy { "+copy-other-addr" } else { "" },
+            if case.load.as_ref().map_or(false, |l| l.n > 0 && l.at <= first_bad) { "+load" } else { "" }
+        )
+    };
+    let copy_src_at = |t: u64| case.retrans.iter().position(|r| *r == t).map_or(0, |i| src_of(case, i));
+    if obs.bg_wire.1 > 0 {
+        out.fail(
+            "c06.wire/background-unexpected-message",
+            format!("{} of {} messages of the background calls are not responses", obs.bg_wire.1, obs.bg_wire.0),
+        );
+    }
 
     // wire: responses by status
     let mut prov_sends = vec![];
@@ -554,9 +1026,29 @@ pub fn check(case: &Case, out: &mut CaseOut) {
         } else {
             "retransmission-schedule"
         };
+        // symmetric difference of expected and observed instants
+        let mut extra = got.clone();
+        let mut missing = vec![];
+        for t in &want {
+            match extra.iter().position(|g| g == t) {
+                Some(i) => {
+                    extra.remove(i);
+                }
+                None => missing.push(*t),
+            }
+        }
+        let first_bad = extra.iter().chain(missing.iter()).copied().min().unwrap_or(ra);
+        let after_ack = case.invite && !success && case.ack_at == Some(end_of_life) && extra.iter().any(|t| *t >= end_of_life);
+        let copy_unanswered = missing.iter().any(|t| copy_src_at(*t) != 0);
+        let q = qual(after_ack, copy_unanswered, first_bad);
         out.fail(
-            format!("c06.final/{kind}-{locus}"),
-            format!("final response transmissions expected at {want:?}, observed {final_times:?} (respond_at={ra}, end={end_of_life})"),
+            format!("c06.final/{kind}-{locus}{q}"),
+            format!(
+                "final response transmissions expected at {want:?}, observed {final_times:?} (respond_at={ra}, end={end_of_life}, request copies from {:?}, ACK from {:?}, response sent to {first_dest:?}, background {:?})",
+                (0..case.retrans.len()).map(|i| source(src_of(case, i)).0).collect::<Vec<_>>(),
+                obs.ack_from,
+                case.load
+            ),
         );
     }
     if let Some(first) = final_sends.first() {
@@ -573,14 +1065,20 @@ pub fn check(case: &Case, out: &mut CaseOut) {
             (Some(a), Some(r)) => {
                 if !(r.ok && r.t_ms == a) {
                     out.fail(
-                        "c06.result/invite-failure-acked",
-                        format!("ACK at {a} ms: respond_failure returned ok={} at {} ms ({})", r.ok, r.t_ms, r.msg),
+                        format!("c06.result/invite-failure-acked{}", qual(true, false, a)),
+                        format!(
+                            "ACK at {a} ms from {:?} (response went to {first_dest:?}, background {:?}): respond_failure returned ok={} at {} ms ({})",
+                            obs.ack_from, case.load, r.ok, r.t_ms, r.msg
+                        ),
                     );
                 }
             }
             (Some(a), None) => out.fail(
-                "c06.result/invite-failure-acked",
-                format!("ACK at {a} ms but respond_failure never returned"),
+                format!("c06.result/invite-failure-acked{}", qual(true, false, a)),
+                format!(
+                    "ACK at {a} ms from {:?} (response went to {first_dest:?}, background {:?}) but respond_failure never returned",
+                    obs.ack_from, case.load
+                ),
             ),
             (None, Some(_)) if case.ack_at.map_or(false, |a| fuzzy(a)) => {}
             (None, Some(r)) => {
@@ -653,11 +1151,21 @@ pub fn check(case: &Case, out: &mut CaseOut) {
         seen_req.dedup();
     }
     if seen_req != want_seen {
+        // first instant at which the two lists differ
+        let first_bad = seen_req
+            .iter()
+            .zip(want_seen.iter())
+            .find(|(a, b)| a != b)
+            .map(|(a, b)| *a.min(b))
+            .or_else(|| seen_req.get(want_seen.len()).copied())
+            .or_else(|| want_seen.get(seen_req.len()).copied())
+            .unwrap_or(0);
+        let q_all = qual(false, copy_src_at(first_bad) != 0, first_bad);
         out.fail(
             if seen_req.len() > want_seen.len() {
-                format!("c06.layers/{kind}-retransmission-shown-again")
+                format!("c06.layers/{kind}-retransmission-shown-again{q_all}")
             } else {
-                format!("c06.layers/{kind}-not-shown-after-end")
+                format!("c06.layers/{kind}-not-shown-after-end{q_all}")
             },
             format!("request shown to layers at {seen_req:?}, expected {want_seen:?}"),
         );
@@ -670,7 +1178,11 @@ pub fn check(case: &Case, out: &mut CaseOut) {
     let ack_after_end = !success && case.ack_at.map_or(false, |a| a > ra + TIMEOUT);
     if case.invite && !ack_after_end && seen_ack != want_ack && !(case.reliable && !success && case.ack_at.map_or(false, |a| a > ra + TIMEOUT)) {
         out.fail(
-            if success { "c06.layers/ack-for-2xx-not-surfaced" } else { "c06.layers/ack-for-failure-surfaced" },
+            if success {
+                format!("c06.layers/ack-for-2xx-not-surfaced{}", qual(true, false, case.ack_at.unwrap_or(0)))
+            } else {
+                format!("c06.layers/ack-for-failure-surfaced{}", qual(true, false, case.ack_at.unwrap_or(0)))
+            },
             format!("ACK shown to layers at {seen_ack:?}, expected {want_ack:?}"),
         );
     }
@@ -690,7 +1202,71 @@ pub fn check(case: &Case, out: &mut CaseOut) {
     if case.ack_at.is_none() && case.invite && !success {
         out.class("ack-lost");
     }
-    if !case.retrans.is_empty() || timer_retrans || ack_near_edge {
+    match case.via {
+        1 => out.class("via:rport"),
+        2 => out.class("via:maddr (response does not go to the source of the request)"),
+        3 => out.class("via:private sent-by + rport (NAT)"),
+        _ => {}
+    }
+    if case.to_tag {
+        out.class("to-tag added by the application");
+    }
+    if ack_elsewhere {
+        out.class("ack does not come from the address the response went to");
+        if !success {
+            out.class(if case.reliable {
+                "ack for 3xx-6xx from elsewhere, reliable"
+            } else {
+                "ack for 3xx-6xx from elsewhere, unreliable"
+            });
+        }
+    }
+    if case.ack_at.is_some() && case.ack_src == 3 {
+        out.class("ack over another transport object");
+    }
+    if copy_elsewhere {
+        out.class("request copy from another address / transport");
+    }
+    // background requests still inside the receive path when a foreground message arrives
+    let mut pending_max = 0usize;
+    if let Some(l) = &case.load {
+        out.class(match l.n {
+            0..=9 => "load:1-9",
+            10..=99 => "load:10-99",
+            100..=299 => "load:100-299",
+            _ => "load:300+",
+        });
+        out.class(match l.kind {
+            0 => "load kind: INVITEs nobody takes",
+            1 => "load kind: OPTIONS nobody takes",
+            2 => "load kind: INVITEs rejected inline by a layer",
+            3 => "load kind: slow inline layer",
+            _ => "load kind: mixture",
+        });
+        for t in case.retrans.iter().copied().chain(case.ack_at) {
+            // arrivals that the foreground transaction is still expected to react to
+            if t > ra && t <= end_of_life {
+                pending_max = pending_max.max(l.pending_at(t));
+            }
+        }
+        match pending_max {
+            0 => {}
+            1..=99 => out.class("foreground arrival while 1-99 background requests are in the receive path"),
+            _ => out.class("foreground arrival while 100+ background requests are in the receive path"),
+        }
+        // every background request is answered at least once (481 / 486 / 200; the slow ones after 20 s) unless the
+        // run ends before: shows that the burst did what the generator claims (a label, not an assertion)
+        let due = (0..l.n as usize)
+            .filter(|i| l.at + if l.kind_of(*i) == 3 { LOAD_SLOW_MS } else { 0 } < horizon(case))
+            .count();
+        out.class(if obs.bg_wire.0 >= due {
+            "load: every background request answered"
+        } else {
+            "load: background requests left unanswered"
+        });
+    }
+    let elsewhere_matters = (ack_elsewhere && !success) || copy_elsewhere;
+    if !case.retrans.is_empty() || timer_retrans || ack_near_edge || elsewhere_matters || pending_max > 0 {
         out.nontrivial(case);
     }
     let _ = obs.end_count;
@@ -700,17 +1276,20 @@ pub fn property() -> Property {
     Property {
         fuzz: vec![],
         id: "C06",
-        rule: "cases = (INVITE|non-INVITE) x (reliable|unreliable) x final status x 0..2 provisionals x answer delay x arrival instants of request retransmissions and of the ACK (grid = +-1 ms around every timer-G instant, the answer instant and 64*T1; random otherwise) x transient send faults on chosen re-sends of a non-INVITE final response, under a paused clock. Non-trivial = at least one request retransmission, or at least one timer retransmission expected, or an ACK within 1 ms of a G/H edge; distinct by hash of the case.",
+        rule: "cases = (INVITE|non-INVITE) x (reliable|unreliable) x final status x 0..2 provisionals x answer delay x arrival instants of request retransmissions and of the ACK (grid = +-1 ms around every timer-G instant, the answer instant and 64*T1; random otherwise) x transient send faults on chosen re-sends of a non-INVITE final response x top-Via shape (plain, rport, maddr, private sent-by + rport) x source of every request copy and of the ACK (same socket address, other port, other host, other transport object) x To-tag added by the application x a burst of 1..600 (thorough grid: 2048) other requests on the same endpoint (nobody takes them / rejected inline by a layer / worked on inline for 20 s / mixture; their failures ACKed after 200 ms or never) placed at, just before or well before a foreground arrival, under a paused clock. Non-trivial = at least one request retransmission, or at least one timer retransmission expected, or an ACK within 1 ms of a G/H edge, or an ACK for a 3xx-6xx / a request copy that does not come from the address the response went to, or a foreground arrival while background requests are inside the receive path; distinct by hash of the case.",
         assumptions: vec![
-            "timers run on tokio's paused clock (hook H2); mock transport sends complete instantly; transient send faults are injected only into re-sends of a non-INVITE final response",
+            "timers run on tokio's paused clock (hook H2); mock transport sends complete instantly; transient send faults are injected only into re-sends of a non-INVITE final response and only without background load",
             "arrivals exactly on a timer instant are excluded (tie is a don't-care)",
             "request retransmissions that arrive before the final response may produce extra copies at the answer instant (tolerated: statement silent)",
             "no request retransmissions are generated after the final response on reliable transports",
+            "a message belongs to the transaction by RFC 3261 17.2.3 (branch, sent-by, method): its source address / the transport object it arrives over is free; the destination of the response is not asserted (C09), only that re-sends go where the first transmission went",
+            "background requests have their own branch and Call-ID; nothing is asserted about them except that what they put on the wire are responses; a signature suffix (+ack-other-addr, +copy-other-addr, +load) names the circumstances of the failing case, the shrunk replay keeps only those that are needed",
         ],
-        explanation: "grid sub-check enumerates single (thorough: pairs of) retransmission instants x ACK instants over the edge grid; random sub-check samples longer patterns",
+        explanation: "grid sub-check enumerates single (thorough: pairs of) retransmission instants x ACK instants over the edge grid, Via shape x source of ACK / request copies x reliability, and bursts of 1..500 (thorough 2048) x kind x ACKed-or-not against three foreground histories; random sub-check samples longer patterns with all dimensions mixed (small bursts in 4% of the cases); load sub-check samples the same space with a burst in every case (sizes 1-9, 10-99, 100-600) and at least one later foreground arrival",
         subs: vec![
             enum_sub("grid", grid_cases, check),
             prop_sub("random", strategy, 6000, 60000, check),
+            prop_sub("load", load_strategy, 60, 1200, check),
         ],
     }
 }
